@@ -791,7 +791,8 @@ static int pki_truststore_verifyCertificateConstraints(const KSI_PKITruststore *
 	X509 *cert = NULL;
 	X509_NAME *subj = NULL;
 	ASN1_OBJECT *oid = NULL;
-	char tmp[256];
+	char *val = NULL;
+	int val_len;
 
 	if (pki == NULL || pki->ctx == NULL || signature == NULL) {
 		res = KSI_INVALID_ARGUMENT;
@@ -844,15 +845,29 @@ static int pki_truststore_verifyCertificateConstraints(const KSI_PKITruststore *
 			goto cleanup;
 		}
 
-		res = X509_NAME_get_text_by_OBJ(subj, oid, tmp, sizeof(tmp));
-		if (res < 0) {
+		/* Get the full length of the value (it may be longer than any fixed size buffer and may contain NUL characters). */
+		val_len = X509_NAME_get_text_by_OBJ(subj, oid, NULL, 0);
+		if (val_len < 0) {
 			KSI_LOG_debug(pki->ctx, "Value for OID: '%s' does not exist.", ptr->oid);
 			KSI_pushError(pki->ctx, res = KSI_PKI_CERTIFICATE_NOT_TRUSTED, NULL);
 			goto cleanup;
 		}
 
-		if (strncmp(tmp, ptr->val, sizeof(tmp))) {
-			KSI_LOG_debug(pki->ctx, "Unexpected value: '%s' for OID: '%s'.", tmp, ptr->oid);
+		KSI_free(val);
+		val = KSI_malloc((size_t)val_len + 1);
+		if (val == NULL) {
+			KSI_pushError(pki->ctx, res = KSI_OUT_OF_MEMORY, NULL);
+			goto cleanup;
+		}
+
+		if (X509_NAME_get_text_by_OBJ(subj, oid, val, val_len + 1) != val_len) {
+			KSI_pushError(pki->ctx, res = KSI_CRYPTO_FAILURE, "Unable to get OID value from certificate.");
+			goto cleanup;
+		}
+
+		/* The whole value must be equal to the whole expected value. */
+		if (ptr->val == NULL || strlen(ptr->val) != (size_t)val_len || memcmp(val, ptr->val, (size_t)val_len)) {
+			KSI_LOG_debug(pki->ctx, "Unexpected value: '%s' for OID: '%s'.", val, ptr->oid);
 			KSI_pushError(pki->ctx, res = KSI_PKI_CERTIFICATE_NOT_TRUSTED, "Unexpected OID value for PKI Certificate constraint.");
 			goto cleanup;
 		}
@@ -867,6 +882,7 @@ cleanup:
 
 	KSI_PKICertificate_free(ksi_pki_cert);
 	if (oid != NULL) ASN1_OBJECT_free(oid);
+	KSI_free(val);
 
 	return res;
 }
